@@ -27,10 +27,33 @@ fn line_text(l: &Value) -> String {
     s
 }
 
+/// the bytes of a physical line; the token "<BAD-UTF8>" stands for a byte sequence that is not UTF-8
+fn line_bytes(l: &Value) -> Vec<u8> {
+    let mut out = Vec::new();
+    for t in l["toks"].as_array().unwrap() {
+        let t = t.as_str().unwrap();
+        if t == "<BAD-UTF8>" {
+            out.extend_from_slice(&[0xC9, 0x20]);
+        } else {
+            out.extend_from_slice(t.as_bytes());
+        }
+    }
+    out.extend_from_slice(l["term"].as_str().unwrap().as_bytes());
+    out
+}
+
+/// "the same description text (up to the line terminator)": compare modulo one trailing LF / CRLF
+pub fn strip_term(s: &str) -> &str {
+    let s = s.strip_suffix('\n').unwrap_or(s);
+    s.strip_suffix('\r').unwrap_or(s)
+}
+
 fn expected_item(it: &Value) -> Value {
     if let Some(ok) = it.get("ok") {
-        let desc: String = ok["desc"].as_array().unwrap().iter().map(|t| t.as_str().unwrap()).collect::<String>() + ok["term"].as_str().unwrap();
+        let desc: String = ok["desc"].as_array().unwrap().iter().map(|t| t.as_str().unwrap()).collect::<String>();
         json!({"ok": {"cps": ok["cps"], "props": ok["props"], "desc": desc}})
+    } else if it.get("ioerr").is_some() {
+        json!({"ioerr": true})
     } else {
         json!({"err": it["err"]})
     }
@@ -46,7 +69,10 @@ pub fn read_file(path: &std::path::Path) -> Value {
         for it in parser {
             match it {
                 Ok(p) => items.push(json!({"ok": crate::replay_csv::row_json_real(&p)})),
-                Err(e) => items.push(json!({"err": e.line().unwrap_or(0)})),
+                Err(e) => match e.line() {
+                    Some(n) => items.push(json!({ "err": n })),
+                    None => items.push(json!({"ioerr": true})),
+                },
             }
             if items.len() > 10_000 {
                 break;
@@ -71,7 +97,7 @@ pub fn row_json_real(p: &PrecisDerivedProperty) -> Value {
         DerivedProperties::Single(ref a) => json!([prop_name(a)]),
         DerivedProperties::Tuple((ref a, ref b)) => json!([prop_name(a), prop_name(b)]),
     };
-    json!({"cps": cps, "props": props, "desc": p.description})
+    json!({"cps": cps, "props": props, "desc": strip_term(&p.description)})
 }
 
 pub fn replay_csv(doc: &Value, t: &mut Tally) {
@@ -79,12 +105,13 @@ pub fn replay_csv(doc: &Value, t: &mut Tally) {
     std::fs::create_dir_all(&dir).ok();
     let path = dir.join("registry.csv");
     let lines = doc["file"].as_array().unwrap();
-    let mut text = String::new();
+    let mut bytes: Vec<u8> = Vec::new();
     for l in lines {
-        text.push_str(&line_text(l));
+        bytes.extend(line_bytes(l));
     }
+    let text = String::from_utf8_lossy(&bytes).to_string();
     let mut f = std::fs::File::create(&path).unwrap();
-    f.write_all(text.as_bytes()).unwrap();
+    f.write_all(&bytes).unwrap();
     drop(f);
     t.executions += 1;
     let actual = read_file(&path);
@@ -93,7 +120,12 @@ pub fn replay_csv(doc: &Value, t: &mut Tally) {
         t.mismatch(json!({"k": "csv", "text": text, "expected": expected, "actual": actual}));
     }
     // the same rows through FromStr, without the iterator
+    // (index of the expected item of physical line i: an undecodable header yields an item of its own)
+    let shift = if expected.as_array().unwrap().len() == lines.len() { 0 } else { 1 };
     for (i, l) in lines.iter().enumerate().skip(1) {
+        if line_bytes(l).contains(&0xC9) && std::str::from_utf8(&line_bytes(l)).is_err() {
+            continue;
+        }
         let line = line_text(l);
         let r = std::panic::catch_unwind(|| PrecisDerivedProperty::from_str(&line));
         t.executions += 1;
@@ -102,7 +134,7 @@ pub fn replay_csv(doc: &Value, t: &mut Tally) {
             Ok(Ok(p)) => json!({"ok": row_json_real(&p)}),
             Ok(Err(_)) => json!("err"),
         };
-        let exp = match expected[i - 1].get("ok") {
+        let exp = match expected[i - shift].get("ok") {
             Some(o) => json!({ "ok": o }),
             None => json!("err"),
         };
